@@ -66,6 +66,7 @@ theorem C10_setup (s s1 : SpecSt) (path : Path) (made : List Path)
   split at h; · cases h
   split at h; · cases h
   rename_i ds _
+  split at h; · cases h
   simp only [Except.ok.injEq, Prod.mk.injEq] at h
   obtain ⟨hs, _⟩ := h
   subst hs
